@@ -117,6 +117,7 @@ func (m *mixed) observe(run *mon.Run, k kase, log []fakeredis.Event, execs map[s
 		// the essential situation: the batch is partially done - a plain write was executed - and then the connection
 		// fails (drop, cut reply, silence, latency beyond lifetime + grace) at a command the client may re-send
 		run.Observe("mix_connection_fault_on_resendable_command_after_plain_write_executed", 1)
+		run.Observe("mix_connection_fault_on_resendable_command_after_plain_write_executed_"+k.client, 1)
 		if k.always {
 			run.Observe("mix_connection_fault_on_resendable_command_after_plain_write_executed_pipelined", 1)
 		}
